@@ -15,7 +15,7 @@ def run(rep, tier, seed):
         drive.run_op(rep, ocf.CRepHarness(2, 3, "impacts"))
     for N, M in ([(2, 2)] if quick else [(2, 2), (3, 2)]):
         drive.run_op(rep, ocf.CRepHarness(N, M, "ranks"))
-        if M <= 2:
+        if (N, M) == (2, 2):
             drive.run_op(rep, ocf.CRepHarness(N, M, "accept-base"))
             drive.run_op(rep, ocf.CRepHarness(N, M, "query"))
     # the same conditional listed more than once (identical formula objects)
